@@ -19,6 +19,8 @@ REGISTRY = {
     "C08": ("A", "vf.harness.C08"),
     "C09": ("A", "vf.harness.C09"),
     "C12": ("A", "vf.harness.C12"),
+    "C13": ("A", "vf.harness.C13"),
+    "C15": ("A", "vf.harness.C15"),
     "C19": ("A", "vf.harness.C19", "vf.engine_b.c19"),
     "C20": ("B", "vf.engine_b.c20"),
 }
@@ -113,6 +115,8 @@ def run_A(prop, modname, tier, seed, kmodname=None):
         "solver_seconds": round(sum(r["z3_seconds"] for r in records.values()), 2),
         "functions_executed": common.source_hash(getattr(mod, "FUNCS", [])),
         "stub_conformance_comparisons": nconf,
+        "instances_validated_on_real_backends": sum(
+            1 for r in records.values() if r.get("real_instance", {}).get("real") == "ok"),
         "engine": "CrossHair 0.0.110 + z3 (symbolic execution of the real functions from /repo working tree)",
         "explanation": "bounded symbolic execution: each condition is a harness over the real code whose "
                        "arguments are solver variables; 'confirmed' = every feasible path within the stated "
